@@ -222,14 +222,33 @@ Print Assumptions C13_nexus_round_trip_translate.
 Theorem C13_newick_first_is_head :
   forall (fmt : Q -> string) (numeric : string -> bool) (parse_num : string -> option Q) (numok : Q -> bool),
     strconv_ok fmt numeric parse_num numok ->
-    forall t lines rest,
+    forall t lines,
       wfN numeric numok t = true ->
-      first_tree_newick (np_nw numeric parse_num) (Newick.write fmt t ++ String "010" rest) =
+      first_tree_newick (np_nw numeric parse_num) (whole_lines (Newick.write fmt t :: lines)) =
       inl (canon_root fmt parse_num t) /\
       head_multi (read_multi (np_nw numeric parse_num) (whole_lines (Newick.write fmt t :: lines))) =
       Some (ITree 0 (canon_root fmt parse_num t)).
 Proof. exact newick_first_is_head. Qed.
 Print Assumptions C13_newick_first_is_head.
+
+(** after the fix 6227553 the agreement needs no hypothesis on the layout: for EVERY input (one line, several lines, line
+    breaks after labels and numbers, CRLF, lines longer than bufio's buffer) whose first ';'-terminated text is complete,
+    the single-tree reader returns exactly the first record of the multi-tree reader: the same tree or the same error *)
+Theorem C13_newick_first_is_head_any_layout :
+  forall (np : string -> utree + string) reads line rest,
+    read_until_semicolon reads = RLine line rest ->
+    first_tree_newick np reads = np line /\
+    head_multi (read_multi np reads) = Some (rec0 (np line)).
+Proof. exact first_tree_is_head. Qed.
+Print Assumptions C13_newick_first_is_head_any_layout.
+
+Theorem C13_newick_first_is_head_eof :
+  forall (np : string -> utree + string) reads line,
+    read_until_semicolon reads = REof line ->
+    head_multi (read_multi np reads) = Some (MultiTree.IErr 0 "EOF") /\
+    first_tree_newick np reads = (if String.eqb line "" then inr "EOF" else np line).
+Proof. exact first_tree_eof. Qed.
+Print Assumptions C13_newick_first_is_head_eof.
 
 (** the single-tree Newick parser does not read behind the ';' of a written tree *)
 Theorem C13_newick_parse_stops_at_semicolon :
